@@ -220,6 +220,11 @@ type tx struct {
 }
 
 func (t *tx) goType(name string) (string, bool) {
+	if i := strings.LastIndex(name, "."); i >= 0 { // v1.PacketType
+		if _, isPkg := pkgs[name[:i]]; isPkg {
+			name = name[i+1:]
+		}
+	}
 	g, ok := goTy[name]
 	if ok && g == "Int" && t.intTy != "" {
 		return t.intTy, true
@@ -274,7 +279,7 @@ func (t *tx) lean(e ast.Expr, want string) (string, string, bool) {
 		}
 	}
 	switch x := e.(type) {
-	case *ast.Ident, *ast.SelectorExpr, *ast.IndexExpr:
+	case *ast.Ident, *ast.SelectorExpr, *ast.IndexExpr, *ast.SliceExpr:
 		if n, ok := t.ren[exprText(e)]; ok {
 			return n[0], n[1], true
 		}
@@ -283,13 +288,13 @@ func (t *tx) lean(e ast.Expr, want string) (string, string, bool) {
 		s, ty, ok := t.lean(x.X, want)
 		return s, ty, ok
 	case *ast.CallExpr:
+		if n, ok := t.ren[exprText(e)]; ok { // e.g. len(data), or a hoisted call
+			return n[0], n[1], true
+		}
 		if len(x.Args) != 1 {
 			return "", "", false
 		}
 		fn := exprText(x.Fun)
-		if n, ok := t.ren[exprText(e)]; ok { // e.g. len(data)
-			return n[0], n[1], true
-		}
 		to, ok := t.goType(fn)
 		if !ok {
 			return "", "", false
@@ -1039,6 +1044,16 @@ func main() {
 		fmt.Fprintf(&w, "def clientAccess : List (String × String × String × List String) := [\n  %s]\n", strings.Join(rows, ",\n  "))
 	}
 	fmt.Fprintln(&w, "end OAP.Gen")
+	{
+		ftxt, flost := genFuncs()
+		lost = append(lost, flost...)
+		fout := filepath.Join(outDir, "Funcs.lean")
+		if old, _ := os.ReadFile(fout); string(old) != ftxt {
+			if err := os.WriteFile(fout, []byte(ftxt), 0o644); err != nil {
+				panic(err)
+			}
+		}
+	}
 	out := filepath.Join(outDir, "Facts.lean")
 	old, _ := os.ReadFile(out)
 	changed := !bytes.Equal(old, w.Bytes())
